@@ -386,4 +386,6 @@ pub fn generate(seed: u64, tier: &str, sink: &mut Sink) {
             emit(sink, vec!["kind=declared-size".into(), "framing=length".into()], &case, &out, o);
         }
     }
+    // calls of OTHER threads while a hostile peer holds one call (real sockets)
+    crate::p_c05b::generate(sink);
 }
